@@ -170,11 +170,15 @@ def rule_derived(ctx, py):
         ctx.check(ok, R, inner["get_concentration_fundamental_units"], f._qual, "%s = %s per %s^3" % (sym, q, sp),
                   "%smol per litre" % pre, "%s is read as %s per cubic %s" % (sym, q, sp))
     # exponents applied to the decomposition: volume -> space^(3e), density -> space^(-3e), quantity^(e)
-    src = pyfe.src(f).replace(" ", "")
-    ctx.check("addunit('space',get_volume_fundamental_unit(b[1]),b[2]*3)" in src, R, f, f._qual,
+    from .. import pysym
+    calls = set()
+    for c in pyfe.calls_in(f):
+        if pyfe.call_name(c) == "addunit" and len(c.args) == 3:
+            calls.add(tuple(pysym.isrc(a_, f).replace(" ", "").replace('"', "'") for a_ in c.args))
+    ctx.check(("'space'", "get_volume_fundamental_unit(b[1])", "b[2]*3") in calls, R, f, f._qual,
               "volume symbol: length exponent 3*e", "", "litre family exponent wrong")
-    ctx.check("addunit('space',get_concentration_fundamental_units(b[1])[1],b[2]*-3)" in src and
-              "addunit('quantity',get_concentration_fundamental_units(b[1])[0],b[2])" in src, R, f, f._qual,
+    ctx.check(("'space'", "get_concentration_fundamental_units(b[1])[1]", "b[2]*-3") in calls and
+              ("'quantity'", "get_concentration_fundamental_units(b[1])[0]", "b[2]") in calls, R, f, f._qual,
               "molar symbol: length exponent -3*e, amount exponent e", "", "molar family exponents wrong")
     ctx.floor(R, 18)
     return vol, con
